@@ -247,6 +247,11 @@ func VerifyArtifacts(items []interface{},
 		}
 		materials := link.Materials
 		products := link.Products
+		// The artifact queues below hold clean paths; look-ups by those names
+		// (e.g. to tell which artifacts were modified) need clean names in the
+		// maps as well.
+		cleanArtifactPaths(materials)
+		cleanArtifactPaths(products)
 
 		// All other rules only require the material or product paths (without
 		// hashes). We extract them from the corresponding maps and store them as
